@@ -8,7 +8,7 @@
 (***************************************************************************)
 EXTENDS Helm, HelmProps
 
-AllObjs == {"r1", "r2", "r3", "h1", "h2", "h3", "by1", "c1", "c2"}
+AllObjs == {"r1", "r2", "r3", "r4", "h1", "h2", "h3", "by1", "c1", "c2"}
 Empty == [o \in AllObjs |-> Absent]
 By    == [f1 |-> "x", f2 |-> "-", own |-> "none", pol |-> "none"]
 Obj(own, f1) == [f1 |-> f1, f2 |-> "-", own |-> own, pol |-> "none"]
@@ -20,7 +20,7 @@ StoresEmpty == {EmptyStore}
 StoresDeployed == {[EmptyStore EXCEPT ![1] = MkRec("deployed", "cA")]}
 PreDeployedA == {[Empty EXCEPT !["by1"] = By, !["r1"] = NewObj(ChartMan("cA")["r1"]), !["r2"] = NewObj(ChartMan("cA")["r2"])]}
 PreOwn  == {[Empty EXCEPT !["by1"] = By, ![r] = Obj(own, "q")] :
-               r \in {"r1", "r3"}, own \in {"none", "othername", "otherns", "partial", "me"}}
+               r \in {"r1", "r3", "r4"}, own \in {"none", "othername", "otherns", "partial", "me"}}
            \cup PreBy
 PreHook == {[Empty EXCEPT !["by1"] = By], [Empty EXCEPT !["by1"] = By, !["h1"] = HookObj],
             [Empty EXCEPT !["by1"] = By, !["c1"] = HookObj]}
@@ -80,7 +80,8 @@ MenuHooksEnum == {U("test", "none")} \cup Installs({"cH", "cJ"}, F, F, B, F, F) 
                  \cup Uninstalls(B, F, F)
 MenuOwnEnum == Installs({"cA", "cB"}, B, F, F, B, F) \cup Upgrades({"cB", "cL"}, F, F, {0}, F, B, F) \cup Uninstalls(F, F, F)
 \* ownership family (C07)
-MenuOwn == Installs({"cA", "cB", "cL"}, B, F, F, B, F) \cup Upgrades({"cB", "cC", "cL", "cA"}, F, F, {0}, F, B, F)
+\* (cS: a CLUSTER-SCOPED custom object r4 in the manifest)
+MenuOwn == Installs({"cA", "cB", "cL", "cS"}, B, F, F, B, F) \cup Upgrades({"cB", "cC", "cL", "cA", "cS"}, F, F, {0}, F, B, F)
            \cup Uninstalls(F, F, F) \cup Rollbacks({0}, {0}, F, F, F)
 \* hooks family (C12)
 Tests == {U("test", "none")}
@@ -134,6 +135,8 @@ EditsNew == {[kind |-> "oobnew", res |-> r, field |-> "", value |-> own] :
 GuardTrue(m) == TRUE
 \* simulation bias: on an empty ledger start with an install (other operations just fail at once)
 GuardBias(m) == (Used = {}) => (m.kind = "install" \/ (m.kind # "install" /\ m = U(m.kind, m.chart)))
+\* real operations until one of them has died half-way (a revision left pending), dry runs from then on
+GuardDryAfterCrash(m) == IF ncrash < MaxCrash THEN ~m.dry /\ GuardBias(m) ELSE m.dry
 
 -----------------------------------------------------------------------------
 (* model-level invariants                                                    *)
